@@ -13,7 +13,7 @@ ID = "C14"
 LEVEL = "exploration"
 TECHNIQUE = "shadow-registry oracle after every operation + icontract class invariant on Model"
 RULE = ("alphabet {create a, create b, create p (an agent whose initialize() creates a companion agent), a creation whose initialize() raises, a creation whose initialize() deletes the oldest agent of its own type, delete_agents(agent_ids(a)) with the model's own list, create_agents(a,2), delete oldest, delete newest, delete two ids, delete unknown id, "
-        "configure_agents, Model.configure(dictionary), reset, flip state, an agent whose constructor creates another agent, a configuration that fails half way, two transient agents that delete themselves in their reset_cache() hook when idle, Model.reset_cache()}: ALL sequences of length<=3 (quick) / <=4 (thorough), plus 2500 / 30000 seeded random sequences "
+        "configure_agents, Model.configure(dictionary), reset, flip state, an agent whose constructor creates another agent, a configuration that fails half way, a factory registered again while its agents live, two transient agents that delete themselves in their reset_cache() hook when idle, Model.reset_cache()}: ALL sequences of length<=3 (quick) / <=4 (thorough), plus 2500 / 30000 seeded random sequences "
         "of length 10-40; after every operation agent(id) for every id ever issued, agent_ids/agent_count per type, "
         "agent_count_per_state and next_agent per (type,state), random_agents. distinct_nontrivial = distinct operation "
         "sequences that contain at least one deletion/reconfiguration followed by a query on a non-empty population.")
@@ -22,7 +22,7 @@ REQUIRED = {"queries": 10000, "invariant_evaluations": 1000}
 BUDGET_S = {"quick": 150, "thorough": 1200}
 
 OPS = ["create_a", "create_b", "create_a2", "del_oldest", "del_newest", "del_two", "del_unknown", "configure", "reset", "flip", "create_p", "del_all_a_alias", "create_fail", "configure_dict", "create_r",
-       "create_t2", "soft_reset", "create_q", "configure_fail"]
+       "create_t2", "soft_reset", "create_q", "configure_fail", "reregister_a"]
 TYPES = ("a", "b", "p", "x", "r", "t", "q")
 STATES = ["active", "idle"]
 
@@ -88,6 +88,7 @@ def worker_init():
 
 def new_model():
     from BPTK_Py import Agent, DataCollector, SimultaneousScheduler
+    _state["Agent"] = Agent
     m = _state["Model"](1, 5, 1, name="reg", scheduler=SimultaneousScheduler(), data_collector=DataCollector())
     m.register_agent_factory("a", lambda i, mod, p: Agent(i, mod, p, "a"))
     m.register_agent_factory("b", lambda i, mod, p: Agent(i, mod, p, "b"))
@@ -240,6 +241,9 @@ def apply(m, sh, op, counters):
                 return dict(kind="id-reused", id=ag.id)
             else:
                 sh.created(ag, ag.agent_type)
+    elif name == "reregister_a":
+        # the factory of a type that has live agents is registered again (instantiate_model() called a second time does that): the agents stay
+        m.register_agent_factory("a", lambda i, mod, p: _state["Agent"](i, mod, p, "a"))
     elif name == "reset":
         m.reset()
         sh.live.clear()
